@@ -1,48 +1,72 @@
 ---- MODULE Trace_ServerShutdown ----
-(* Trace validation for C12: one run = one real transport.TarsServer, scripted clients, one Shutdown.        *)
-(* Events: Config{n,q}  ReqSent{c,r}  Read{c,r} Invoked{r} Written{r} ConnClosed{c} AcceptExit Released (hooks) *)
-(*         RespRecv{c,r} CloseMsgRecv{c} PeerEOF{c} (client observations)  ShutdownStart ShutdownEnd{expired}  End *)
+(* Trace validation for C12: one run = one real transport.TarsServer, scripted clients (up to 6 connections),  *)
+(* one or more calls of Shutdown (overlapping or one after the other), each with its own context.               *)
+(* Events: Config{n,q,conns}  ReqSent{c,r,ow}  Read{c,r} Invoked{r} Written{r} ConnClosed{c} AcceptExit Released (hooks) *)
+(*         RespRecv{c,r} CloseMsgRecv{c} PeerEOF{c} (client observations)  ShutdownStart{k} ShutdownEnd{k,expired}  End *)
+(* Request r = 10 * connection + ordinal on that connection.                                                     *)
 EXTENDS ServerShutdown, Json
 VARIABLES l,
           seen,   \* connections whose client has received the close notification
-          gone    \* connections whose client vanished (abortive close by the client: ClientAbort)
+          gone,   \* connections whose client vanished (abortive close by the client: ClientAbort)
+          ow      \* requests sent as one-way: handled like the others, never answered on the wire
 Trace == ndJsonDeserialize("trace.ndjson")
-tvars == <<vars, l, seen, gone>>
-TraceInit == Init /\ l = 1 /\ seen = {} /\ gone = {}
-\* requests 3 and 6 are one-way in every run that sends them: handled like the others, never answered on the wire
-OneWay == {3, 6}
+tvars == <<vars, l, seen, gone, ow>>
+TraceInit == Init /\ l = 1 /\ seen = {} /\ gone = {} /\ ow = {}
 IsEvent(e) == l <= Len(Trace) /\ Trace[l].e = e /\ l' = l + 1
-Keep == UNCHANGED <<seen, gone>>
-TReqSent == IsEvent("ReqSent") /\ ClientSend(Trace[l].r) /\ ConnOf[Trace[l].r] = Trace[l].c /\ Keep
+Keep == UNCHANGED <<seen, gone, ow>>
+TReqSent == /\ IsEvent("ReqSent") /\ ClientSend(Trace[l].r) /\ ConnOf[Trace[l].r] = Trace[l].c
+            /\ ow' = (IF Trace[l].ow THEN ow \cup {Trace[l].r} ELSE ow) /\ UNCHANGED <<seen, gone>>
 TRead == IsEvent("Read") /\ RecvRead(Trace[l].c) /\ Head(inbuf[Trace[l].c]) = Trace[l].r /\ Keep
-TInvoked == IsEvent("Invoked") /\ Invoke(Trace[l].r) /\ Keep
+\* the handler of a one-way request ends without a write, right after the invocation
+OneWayDone(r) == /\ st[r] = "running" /\ st' = [st EXCEPT ![r] = "written"]
+                 /\ numInvoke' = [numInvoke EXCEPT ![ConnOf[r]] = @ - 1]
+                 /\ lateWrite' = (lateWrite \/ sock[ConnOf[r]] = "closed")
+                 /\ UNCHANGED <<hr, inbuf, rpc, sock, notified, isClosed, apc, jobQ, dpc, dj, spc, expired>>
+TInvoked == IsEvent("Invoked") /\ (IF Trace[l].r \in ow THEN OneWayDone(Trace[l].r) ELSE Invoke(Trace[l].r)) /\ Keep
 \* (the hook is reached after conn.Write whether the write succeeded or not; a one-way request never gets there)
-TWritten == IsEvent("Written") /\ Trace[l].r \notin OneWay /\ Write(Trace[l].r) /\ Keep
-TConnClosed == IsEvent("ConnClosed") /\ RecvClose(Trace[l].c) /\ Keep
-TAcceptExit == IsEvent("AcceptExit") /\ AcceptExit /\ Keep
+TWritten == IsEvent("Written") /\ Trace[l].r \notin ow /\ Write(Trace[l].r) /\ Keep
+\* The steps of the model that no hook reports are taken where the run needs them (a reduction of the search, not of the
+\* accepted runs: each of them, once enabled, stays enabled until the step that reads its effect, and enables nothing earlier
+\* that an observed event depends on):
+\*  - the recv loop's return (RecvReturn, or the failed read of a client that vanished) together with the close that follows it;
+\*  - the poller's close of a connection it judges idle, right before the first event that can tell: a return of Shutdown,
+\*    the client's end of stream, or the recv loop's close report of that connection;
+\*  - the expiry of a context right before the return of its own call.
+CanReturn(c) == /\ rpc[c] = "reading"
+                /\ \/ isClosed /\ inbuf[c] = <<>> /\ (RT \/ notified[c])
+                   \/ sock[c] = "closed"
+                   \/ c \in gone
+ReturnAndClose(c) == /\ CanReturn(c) /\ numInvoke[c] = 0
+                     /\ rpc' = [rpc EXCEPT ![c] = "closed"] /\ sock' = [sock EXCEPT ![c] = "closed"] /\ inbuf' = [inbuf EXCEPT ![c] = <<>>]
+                     /\ UNCHANGED <<hr, st, numInvoke, notified, isClosed, apc, jobQ, dpc, dj, spc, expired, lateWrite>>
+TConnClosed == IsEvent("ConnClosed") /\ (RecvClose(Trace[l].c) \/ ReturnAndClose(Trace[l].c)) /\ Keep
+\* the hook of the accept loop is reached after the loop has published its exit (isListenClosed): on a loaded machine the
+\* poller can send the close message, and a client can report it, before the hook is recorded.  The model's step is taken
+\* either at the hook or, unreported, right before the first client observation that depends on it; the hook then finds it done.
+TAcceptExit == IsEvent("AcceptExit") /\ (AcceptExit \/ (apc = "exited" /\ UNCHANGED vars)) /\ Keep
+AcceptExitNext == l <= Len(Trace) /\ Trace[l].e \in {"CloseMsgRecv", "PeerEOF", "ConnClosed", "ShutdownEnd"}
 TReleased == IsEvent("Released") /\ (PoolDead \/ NoPoolReleased) /\ Keep
-TShutdownStart == IsEvent("ShutdownStart") /\ ShutdownStart /\ Keep
-TShutdownEnd == IsEvent("ShutdownEnd") /\ ShutdownReturn /\ (Trace[l].expired = expired) /\ Keep
+TShutdownStart == IsEvent("ShutdownStart") /\ Trace[l].k \in Calls /\ ShutdownStart(Trace[l].k) /\ Keep
+\* the call returned: either everything had drained, or its own context had expired (the context of another call does not count)
+TShutdownEnd == IsEvent("ShutdownEnd") /\ ShutdownReturn(Trace[l].k) /\ (Trace[l].expired = expired[Trace[l].k]) /\ Keep
 \* client-side observations
-TRespRecv == IsEvent("RespRecv") /\ Trace[l].r \notin OneWay /\ st[Trace[l].r] \in {"invoked", "written"} /\ UNCHANGED vars /\ Keep   \* the write sits between the two hooks
-TCloseMsgRecv == IsEvent("CloseMsgRecv") /\ notified[Trace[l].c] /\ UNCHANGED vars /\ seen' = seen \cup {Trace[l].c} /\ UNCHANGED gone
+TRespRecv == IsEvent("RespRecv") /\ Trace[l].r \notin ow /\ st[Trace[l].r] \in {"invoked", "written"} /\ UNCHANGED vars /\ Keep   \* the write sits between the two hooks
+TCloseMsgRecv == IsEvent("CloseMsgRecv") /\ notified[Trace[l].c] /\ UNCHANGED vars /\ seen' = seen \cup {Trace[l].c} /\ UNCHANGED <<gone, ow>>
 \* the client may see the end of the stream before the server-side hook after conn.Close() is recorded.  The server writes
 \* the close notification before it closes a connection, and TCP keeps the order: a client that is still there sees the
 \* notification before the end of the stream ("connected clients are sent the reconnect notification")
 TPeerEOF == /\ IsEvent("PeerEOF")
-            /\ (sock[Trace[l].c] = "closed" \/ (rpc[Trace[l].c] = "draining" /\ numInvoke[Trace[l].c] = 0))
+            /\ (sock[Trace[l].c] = "closed" \/ ((rpc[Trace[l].c] = "draining" \/ CanReturn(Trace[l].c)) /\ numInvoke[Trace[l].c] = 0))
             /\ Trace[l].c \in seen
             /\ UNCHANGED vars /\ Keep
 \* the client of connection c vanishes with a reset: nothing more is sent or observed on it; the server's read fails
-TClientAbort == IsEvent("ClientAbort") /\ UNCHANGED vars /\ gone' = gone \cup {Trace[l].c} /\ UNCHANGED seen
-GoneReturn(c) == /\ c \in gone /\ rpc[c] = "reading"
-                 /\ rpc' = [rpc EXCEPT ![c] = "draining"] /\ inbuf' = [inbuf EXCEPT ![c] = <<>>]
-                 /\ UNCHANGED <<hr, st, sock, numInvoke, notified, isClosed, apc, jobQ, dpc, dj, spc, expired, lateWrite>>
+TClientAbort == IsEvent("ClientAbort") /\ UNCHANGED vars /\ gone' = gone \cup {Trace[l].c} /\ UNCHANGED <<seen, ow>>
 \* end of the run (the harness waited well beyond every handler duration): everything read was answered,
 \* and unless the context expired every connection drained
 TEnd == /\ IsEvent("End")
         /\ \A r \in Reqs : WasRead(r) => st[r] = "written"
-        /\ spc = "returned" /\ (~expired => AllConnsClosed)      \* by the end of the run every recv goroutine has finished as well
+        /\ ~Polling /\ Begun                                     \* every call of Shutdown that was made has returned
+        /\ ((\E k \in Calls : spc[k] = "returned" /\ ~expired[k]) => AllConnsClosed)   \* by the end of the run every recv goroutine has finished as well
         /\ UNCHANGED vars /\ Keep
 \* a new run starts: N and Q of a run are constants of the TLC run (traces are grouped by configuration)
 TConfig == /\ IsEvent("Config") /\ Trace[l].n = N /\ Trace[l].q = Q
@@ -52,22 +76,29 @@ TConfig == /\ IsEvent("Config") /\ Trace[l].n = N /\ Trace[l].q = Q
            /\ sock' = [c \in Conns |-> IF c <= Trace[l].conns THEN "open" ELSE "closed"]
            /\ numInvoke' = [c \in Conns |-> 0] /\ notified' = [c \in Conns |-> c > Trace[l].conns]
            /\ isClosed' = FALSE /\ apc' = "accepting" /\ jobQ' = <<>> /\ dpc' = "sel" /\ dj' = 0
-           /\ spc' = "idle" /\ expired' = FALSE /\ lateWrite' = FALSE
-           /\ seen' = {} /\ gone' = {}
-TSilent == /\ \/ \E c \in Conns : RecvReturn(c) \/ Hand(c) \/ GoneReturn(c)
-              \/ DTake \/ DHand \/ PoolStop \/ Notify \/ Expire \/ \E c \in Conns : PollerClose(c)
-              \/ \E r \in OneWay : Write(r)                    \* the handler of a one-way request ends without a write
-           /\ UNCHANGED <<l, seen, gone>>
+           /\ spc' = [k \in Calls |-> "idle"] /\ expired' = [k \in Calls |-> FALSE] /\ lateWrite' = FALSE
+           /\ seen' = {} /\ gone' = {} /\ ow' = {}
+ExpiryNext(k) == l <= Len(Trace) /\ Trace[l].e = "ShutdownEnd" /\ Trace[l].k = k /\ Trace[l].expired
+PollerCloseNext(c) == /\ l <= Len(Trace)
+                      /\ \/ Trace[l].e = "ShutdownEnd"
+                         \/ Trace[l].e \in {"PeerEOF", "ConnClosed"} /\ Trace[l].c = c
+TSilent == /\ \/ \E c \in Conns : Hand(c)
+              \/ DTake \/ DHand \/ PoolStop \/ Notify
+              \/ AcceptExit /\ AcceptExitNext
+              \/ \E c \in Conns : PollerClose(c) /\ PollerCloseNext(c)
+              \/ \E k \in Calls : Expire(k) /\ ExpiryNext(k)
+           /\ UNCHANGED <<l, seen, gone, ow>>
 TraceNext == TClientAbort \/ TReqSent \/ TRead \/ TInvoked \/ TWritten \/ TConnClosed \/ TAcceptExit \/ TReleased \/ TShutdownStart
              \/ TShutdownEnd \/ TRespRecv \/ TCloseMsgRecv \/ TPeerEOF \/ TEnd \/ TConfig \/ TSilent
 \* a connection whose client vanished is ended by the client, not by the shutdown: no notification is owed to it
-NotifiedT == \A c \in Conns \ gone : (sock[c] = "closed" /\ spc # "idle") => notified[c]
+NotifiedT == \A c \in Conns \ gone : (sock[c] = "closed" /\ Begun) => notified[c]
 TraceSpec == TraceInit /\ [][TraceNext]_tvars
 ASSUME TLCSet(1, 0)
 HighWater == (IF l > TLCGet(1) THEN TLCSet(1, l) ELSE TRUE)
 TraceAccepted == /\ PrintT(<<"HWM", TLCGet(1), Len(Trace)>>)
                  /\ TLCGet(1) = Len(Trace) + 1
-C3 == {1, 2}
-R8 == 1..8
-CO8 == [r \in R8 |-> IF r % 2 = 0 THEN 2 ELSE 1]     \* even requests go to connection 2
+C6 == 1..6
+R64 == {10 * c + i : c \in C6, i \in 1..6}
+CO64 == [r \in R64 |-> r \div 10]
+K3 == {1, 2, 3}
 ====
